@@ -60,7 +60,7 @@ func genC24Req(tp *simrt.Tape, id int, hostile bool) c24req {
 	if hostile {
 		shape = 1 + tp.Draw(16, "shape")
 	} else {
-		shape = -tp.Draw(5, "valid_shape")
+		shape = -tp.Draw(7, "valid_shape")
 	}
 	w := func(format string, a ...interface{}) c24req {
 		return c24req{wire: []byte(fmt.Sprintf(format, a...))}
@@ -82,6 +82,16 @@ func genC24Req(tp *simrt.Tape, id int, hostile bool) c24req {
 	case -4:
 		r = w("PUT %s HTTP/1.1\r\n%sContent-Length: %d\r\nContent-Length: %d\r\n\r\n%s", target, hdr, len(body), len(body), body)
 		r.shape = "PUT duplicate identical content-length"
+	case -5:
+		// request framing does not depend on the method (RFC 7230 3.3): a GET, HEAD or
+		// DELETE that declares a body has one
+		m := []string{"GET", "HEAD", "DELETE", "OPTIONS", "PATCH"}[tp.Draw(5, "method")]
+		r = w("%s %s HTTP/1.1\r\n%sContent-Length: %d\r\n\r\n%s", m, target, hdr, len(body), body)
+		r.shape = m + " with content-length body"
+	case -6:
+		m := []string{"GET", "HEAD", "DELETE", "OPTIONS", "PATCH"}[tp.Draw(5, "method")]
+		r = w("%s %s HTTP/1.1\r\n%sTransfer-Encoding: chunked\r\n\r\n%s", m, target, hdr, chunkedWire(tp, body, false))
+		r.shape = m + " with chunked body"
 	case 1:
 		r = w("POST %s HTTP/1.1\r\n%sContent-Length: %d\r\nContent-Length: %d\r\n\r\n%s", target, hdr, len(body), len(body)+3, body)
 		r.shape = "conflicting content-length headers"
